@@ -281,7 +281,7 @@ def run(ctx):
     quick = ctx.quick()
     # ---- design level: exhaustive
     for n in ((2, 3) if quick else (2, 3, 4)):
-        mod, cfg = mc(n, ops=('get', 'goc', 'force') if n < 4 else ('goc', 'force'))
+        mod, cfg = mc(n, ops=('get', 'goc', 'force') if n < 4 else ('goc', 'force'), fail=(n < 4))
         cfg += ''.join(f'INVARIANT {i}\n' for i in INVS)
         if n == 2:
             cfg = cfg.replace('SPECIFICATION Spec', 'SPECIFICATION FairSpec') + 'PROPERTY Terminates\n'
